@@ -467,11 +467,17 @@ func TestC12_Pushdown(t *testing.T) {
 		chain := c12Chain(rt, d, pool, pivot, rapid.IntRange(1, 4).Draw(rt, "nblocks"))
 		batch := rapid.IntRange(1, 3).Draw(rt, "batch")
 		var tables [2][]string
+		var wopts []WorldOpt
+		storedIg := rapid.Bool().Draw(rt, "storedintegration")
+		if storedIg {
+			// stored through the dashboard: loaded as written (an omitted filter_agg stays omitted)
+			wopts = append(wopts, WithStoredIntegrations())
+		}
 		for variant := 0; variant < 2; variant++ {
 			node := sim.NewNode(chain.Clone())
 			node.NoLogFilter = variant == 1
 			dc := *d
-			w, err := NewWorld(quietT{}, []*SourceCfg{{Name: "src1", ChainID: 5, Batch: batch, Conc: 1, Node: node}}, []*refmodel.Decl{&dc})
+			w, err := NewWorld(quietT{}, []*SourceCfg{{Name: "src1", ChainID: 5, Batch: batch, Conc: 1, Node: node}}, []*refmodel.Decl{&dc}, wopts...)
 			if w != nil {
 				defer w.Close()
 			}
